@@ -25,6 +25,8 @@ func rateScenario(c *Ctx, in map[string]string) {
 			s.Steps = append(s.Steps, Step{Op: "timedcall", Arg: "Message", Args: []string{"#chan", strings.TrimSpace(strings.Repeat(fmt.Sprintf("long message %d word ", i), 12))}})
 		case "msg":
 			s.Steps = append(s.Steps, Step{Op: "timedcall", Arg: "Message", Args: []string{"#chan", fmt.Sprintf("message number %d %s", i, strings.Repeat("x", i%7*5))}})
+		case "tmplmsg": // built from a template event whose length the application has measured
+			s.Steps = append(s.Steps, Step{Op: "timedcall", Arg: "TemplateMessage", Args: []string{"#chan", fmt.Sprintf("%d ", i) + strings.Repeat("template text ", 17)}})
 		case "umsg": // multi-byte text: the cost is per BYTE on the wire
 			s.Steps = append(s.Steps, Step{Op: "timedcall", Arg: "Message", Args: []string{"#chan", fmt.Sprintf("%d ", i) + strings.Repeat("日本語テキスト", 12)}})
 		case "who":
@@ -97,7 +99,7 @@ func rateScenario(c *Ctx, in map[string]string) {
 	want := []string{}
 	for _, k := range kinds {
 		switch k {
-		case "msg", "longmsg", "umsg":
+		case "msg", "longmsg", "umsg", "tmplmsg":
 			want = append(want, "PRIVMSG")
 		case "who":
 			want = append(want, "WHO")
@@ -176,6 +178,7 @@ func runC16Timing(c *Ctx) {
 		{"kinds": "msg,who,join,msg,who,notice,who,umsg,msg,ping,umsg,pong,join,who"},
 		{"kinds": "msg,who,longmsg,ping,longmsg"},
 		{"kinds": "longidle,msg,msg,msg,msg,msg,msg,msg"},
+		{"kinds": "tmplmsg,tmplmsg,tmplmsg,tmplmsg"},
 		{"allowflood": "1", "kinds": "msg,who,join,msg,who,notice,who,who,msg,ping,who,who,msg,who,msg,msg"},
 	}
 	if c.Tier == "thorough" {
